@@ -130,7 +130,7 @@ def gen_scenario(rng, n_gc=None, n_veh=None, features=None, steps=None, interval
         comp["vehicles"][vid] = v
         # alternating departure / arrival events
         state = "connected" if connected else "away"
-        off = datetime.timedelta(minutes=rng.choice([0, 5, -5])) if "unaligned" in feats else datetime.timedelta(0)
+        off = datetime.timedelta(minutes=rng.choice([0, 5, -5, 2, 1])) if "unaligned" in feats else datetime.timedelta(0)
         while t <= steps + 2:
             if state == "connected":
                 arr = t + rng.randint(1, 6)
